@@ -62,6 +62,7 @@ class World:
         self.class_mro = {}
         self._build_classes()
         self.singletons = {}
+        self.singleton_cls = {}
         self.contracts = {}
         self.specs: dict[str, FuncInfo] = {}
         self.spec_consts = {}
